@@ -1075,7 +1075,7 @@ func (h *H) ccittCase(f pdf.FilterCCITTFax, data []byte, cols, rows int) {
 		h.fail(sig, fmt.Sprintf("CCITTFax %s: decode(encode(image)) != image (%d rows; got %d bytes for %d, err=%v)", label, rows, len(dec), len(data), err),
 			map[string]any{"filter": fmt.Sprintf("%#v", f), "cols": cols, "rows": rows, "data": common.Hex(data)})
 	}
-	if f.K == 0 && (cols <= 300 || cols <= 10000 && e.Rand.IntN(4) == 0 || e.Rand.IntN(8) == 0) {
+	if f.K == 0 && (cols <= 300 || cols <= 10000 && e.Rand.IntN(4) == 0) {
 		h.g3ModelLines(f, data, enc, dec, err, cols, class)
 	}
 	e.Count(true, label+common.Hex(data), fmt.Sprintf("%s:%s", class, map[bool]string{true: "ok", false: "fail"}[ok]))
